@@ -191,6 +191,56 @@ func parseOptI(s *hx.Sexp) *int {
 	return &i
 }
 
+// parseBody reads the BODY part of a call s-expression (callSexp) into c.
+func parseBody(c *Call, body *hx.Sexp) (err error) {
+	if body.IsList {
+		items := body.List[1:]
+		switch body.List[0].Atom {
+		case "entity":
+			c.Entity, err = codec.ParseV(items[0])
+		case "patch":
+			c.PU, err = parsePU(items[0])
+		case "entities", "ids":
+			for _, it := range items {
+				v, e := codec.ParseV(it)
+				if e != nil {
+					return e
+				}
+				if body.List[0].Atom == "ids" {
+					c.BatchKeys = append(c.BatchKeys, v)
+				} else {
+					c.Entities = append(c.Entities, v)
+				}
+			}
+		case "keyed", "keyedpatch":
+			for _, it := range items {
+				k, e := codec.ParseV(it.List[0])
+				if e != nil {
+					return e
+				}
+				c.BatchKeys = append(c.BatchKeys, k)
+				if body.List[0].Atom == "keyed" {
+					v, e := codec.ParseV(it.List[1])
+					if e != nil {
+						return e
+					}
+					c.BatchVals = append(c.BatchVals, v)
+				} else {
+					p, e := parsePU(it.List[1])
+					if e != nil {
+						return e
+					}
+					c.BatchPUs = append(c.BatchPUs, p)
+				}
+			}
+		}
+		if err != nil {
+			return err
+		}
+	}
+	return nil
+}
+
 // parseOp: "e2e <module> <env> <spec> <call> <reply> (cfg T PFX)"
 func (x *runner) parseOp(line string) (*Call, runCfg, error) {
 	rc := runCfg{mode: "wire", world: "plain"}
@@ -244,50 +294,8 @@ func (x *runner) parseOp(line string) (*Call, runCfg, error) {
 	if c.Params, err = parseOptV(call.List[2]); err != nil {
 		return nil, rc, err
 	}
-	if body := call.List[3]; body.IsList {
-		items := body.List[1:]
-		switch body.List[0].Atom {
-		case "entity":
-			c.Entity, err = codec.ParseV(items[0])
-		case "patch":
-			c.PU, err = parsePU(items[0])
-		case "entities", "ids":
-			for _, it := range items {
-				v, e := codec.ParseV(it)
-				if e != nil {
-					return nil, rc, e
-				}
-				if body.List[0].Atom == "ids" {
-					c.BatchKeys = append(c.BatchKeys, v)
-				} else {
-					c.Entities = append(c.Entities, v)
-				}
-			}
-		case "keyed", "keyedpatch":
-			for _, it := range items {
-				k, e := codec.ParseV(it.List[0])
-				if e != nil {
-					return nil, rc, e
-				}
-				c.BatchKeys = append(c.BatchKeys, k)
-				if body.List[0].Atom == "keyed" {
-					v, e := codec.ParseV(it.List[1])
-					if e != nil {
-						return nil, rc, e
-					}
-					c.BatchVals = append(c.BatchVals, v)
-				} else {
-					p, e := parsePU(it.List[1])
-					if e != nil {
-						return nil, rc, e
-					}
-					c.BatchPUs = append(c.BatchPUs, p)
-				}
-			}
-		}
-		if err != nil {
-			return nil, rc, err
-		}
+	if err = parseBody(c, call.List[3]); err != nil {
+		return nil, rc, err
 	}
 	// the reply
 	rl := reply.List[1:]
